@@ -88,6 +88,11 @@ def _lift(x):
     return None
 
 
+def _lift_z(z):
+    """z3 Int / Real term -> Real term"""
+    return z3.ToReal(z) if z.sort() == z3.IntSort() else z
+
+
 def _mk(z, flav):
     """Build the result proxy; numerals collapse to concrete numbers."""
     z = z3.simplify(z)
@@ -765,6 +770,19 @@ def install(engine):
                 continue
             setattr(cls, name, _defer(orig))
     # Decimal.__ne__ / Fraction.__ne__ are inherited from object (-> not __eq__)
+
+    # while a hash is being recorded (Engine.hash_of) concrete rationals are recorded like symbolic
+    # ones, so that a term holding 1000000 and a term holding y (== 1000000 on this path) compare
+    for cls in (Decimal, Fraction):
+        orig_hash = cls.__dict__['__hash__']
+
+        def rec_hash(self, _orig=orig_hash):
+            if E is not None and E.hash_recording and not isinstance(self, (SymRat,)):
+                E.hash_log.append(q_val(Fraction(self.numerator, self.denominator)))
+                return 0
+            return _orig(self)
+        cls.__hash__ = rec_hash
+
 
     orig_dec_new = Decimal.__new__
 
